@@ -88,8 +88,128 @@ def _mk_case(rng, cls, w, h, torus, qs, extra_ops=()):
     return {"cls": cls, "w": w, "h": h, "torus": torus, "agents": agents, "ops": ops}
 
 
+def _gen_large(rng, tier):
+    """scale: grids with a dimension in the hundreds (coordinates beyond CPython's small-int cache, beyond 255/256/257),
+    cells holding many agents, histories of several hundred distinct queries followed by repeats (caches with limits),
+    long path/cycle graphs.  The model's cost depends on the radius, not on the grid size."""
+    cases = []
+    forms = ["get", "iter", "get", "iter", "abandon", "np"]
+    for _ in range(36 if tier == "quick" else 700):
+        shape = rng.randrange(3)
+        big = rng.choice([129, 200, 255, 256, 257, 258, 259, 300, 513, 700])
+        if shape == 0:
+            w, h = big, rng.randint(1, 7)
+        elif shape == 1:
+            w, h = rng.randint(1, 7), big
+        else:
+            w, h = rng.choice([257, 258, 260, 300]), rng.choice([257, 258, 261, 300])
+        torus = rng.random() < 0.5
+        cls = rng.choice(["SingleGrid", "MultiGrid"])
+        qs = []
+        for _ in range(rng.randint(3, 12)):
+            if qs and rng.random() < 0.4:
+                x, y, m, ic, r = rng.choice(qs)
+                if rng.random() < 0.5:
+                    ic = not ic
+                else:
+                    m = not m
+            else:
+                # positions: beyond 256 where the dimension allows, at the far border, at the near border, anywhere
+                def coord(n):
+                    k = rng.randrange(4)
+                    if k == 0 and n > 258:
+                        return rng.randint(257, n - 1)
+                    if k == 1:
+                        return n - 1 - rng.randint(0, min(3, n - 1))
+                    if k == 2:
+                        return rng.randint(0, min(3, n - 1))
+                    return rng.randrange(n)
+                x, y = coord(w), coord(h)
+                m, ic = rng.random() < 0.5, rng.random() < 0.5
+                r = rng.randint(1, 3) if rng.random() < 0.8 else rng.randint(4, 9)
+            qs.append((x, y, m, ic, r))
+        # agents near the queried positions (so that neighbour queries are non-trivial), several per cell on a MultiGrid
+        agents, used, aid = [], set(), 0
+        for (x, y, m, ic, r) in qs:
+            for _k in range(rng.randint(0, 4)):
+                ax, ay = x + rng.randint(-r, r), y + rng.randint(-r, r)
+                if torus:
+                    ax, ay = ax % w, ay % h
+                if not (0 <= ax < w and 0 <= ay < h):
+                    continue
+                if cls == "SingleGrid" and (ax, ay) in used:
+                    continue
+                used.add((ax, ay))
+                aid += 1
+                agents.append([aid, ax, ay])
+        ops = [[rng.choice(["nbhd", "nbrs"]), x, y, m, ic, r, rng.choice(forms)] for (x, y, m, ic, r) in qs]
+        if rng.random() < 0.3 and agents:
+            ops.append(["contents", [[a[1], a[2]] for a in rng.sample(agents, min(len(agents), 4))], rng.choice(["list", "tuple"])])
+        cases.append({"cls": cls, "w": w, "h": h, "torus": torus, "agents": agents, "ops": ops})
+    # crowded cells / many agents
+    for _ in range(6 if tier == "quick" else 80):
+        w, h = rng.randint(2, 5), rng.randint(2, 5)
+        n = rng.choice([40, 130, 260, 300, 520])
+        agents = [[i + 1, rng.randrange(w), rng.randrange(h)] for i in range(n)]
+        if rng.random() < 0.5:                       # one cell holds almost everybody
+            cx, cy = rng.randrange(w), rng.randrange(h)
+            agents = [[a[0], cx, cy] if rng.random() < 0.9 else a for a in agents]
+        qs = [(rng.randrange(w), rng.randrange(h), rng.random() < 0.5, rng.random() < 0.5, rng.randint(1, 2)) for _ in range(4)]
+        ops = [[rng.choice(["nbrs", "nbrs", "nbhd"]), x, y, m, ic, r, rng.choice(forms)] for (x, y, m, ic, r) in qs]
+        ops.append(["contents", [[rng.randrange(w), rng.randrange(h)] for _ in range(3)], "list"])
+        cases.append({"cls": "MultiGrid", "w": w, "h": h, "torus": rng.random() < 0.5, "agents": agents, "ops": ops})
+    # several hundred distinct queries on one instance, then the early ones again (bounded caches, compaction)
+    for _ in range(3 if tier == "quick" else 40):
+        w, h = rng.randint(6, 12), rng.randint(6, 12)
+        allq = [(x, y, m, ic, r) for x in range(w) for y in range(h) for m in (True, False) for ic in (True, False) for r in (1, 2)]
+        rng.shuffle(allq)
+        first = allq[:rng.choice([130, 260, 300, 520])]
+        qs = first + rng.sample(first[:40], 25)
+        base = _mk_case(rng, rng.choice(["SingleGrid", "MultiGrid"]), w, h, rng.random() < 0.5, [])
+        base["agents"] = base["agents"][:30]
+        base["ops"] = [[rng.choice(["nbhd", "nbrs"]), x, y, m, ic, r, rng.choice(["get", "iter"])] for (x, y, m, ic, r) in qs]
+        cases.append(base)
+    # large hex grids and long sparse graphs
+    for _ in range(8 if tier == "quick" else 150):
+        big = rng.choice([130, 256, 258, 300])
+        w, h = (big, rng.randint(1, 6)) if rng.random() < 0.5 else (rng.randint(1, 6), big)
+        torus = rng.random() < 0.5
+        if torus and w % 2:
+            w += 1
+        qs = []
+        for _k in range(rng.randint(3, 8)):
+            x = rng.choice([rng.randrange(w), w - 1, max(0, w - 2)])
+            y = rng.choice([rng.randrange(h), h - 1, max(0, h - 2)])
+            qs.append((x, y, rng.random() < 0.5, rng.randint(1, 3)))
+        c = _hex_case(rng, rng.choice(["HexSingleGrid", "HexMultiGrid"]), 1, 1, torus, qs)
+        c["w"], c["h"] = w, h
+        c["agents"] = []
+        seen = set()
+        for (x, y, ic, r) in qs:
+            for _k in range(rng.randint(0, 3)):
+                ax, ay = x + rng.randint(-r, r), y + rng.randint(-r, r)
+                if 0 <= ax < w and 0 <= ay < h and ((ax, ay) not in seen or c["cls"] == "HexMultiGrid"):
+                    seen.add((ax, ay))
+                    c["agents"].append([len(c["agents"]) + 1, ax, ay])
+        cases.append(c)
+    for _ in range(4 if tier == "quick" else 60):
+        n = rng.choice([60, 130, 258, 300])
+        edges = [[i, i + 1] for i in range(n - 1)]
+        if rng.random() < 0.5:
+            edges.append([n - 1, 0])
+        for _k in range(rng.randint(0, 5)):
+            i, j = rng.randrange(n), rng.randrange(n)
+            if i != j and [i, j] not in edges and [j, i] not in edges:
+                edges.append([i, j])
+        agents = [[k + 1, rng.choice([rng.randrange(n), n - 1, 257 % n])] for k in range(rng.randint(0, 12))]
+        ops = [[rng.choice(["nbhd", "nbrs"]), rng.choice([rng.randrange(n), n - 1, 257 % n]), rng.random() < 0.5,
+                rng.choice([1, 2, 3, 7, 20])] for _k in range(rng.randint(3, 7))]
+        cases.append({"kind": "net", "n": n, "edges": edges, "agents": agents, "ops": ops})
+    return cases
+
+
 def gen_cases(rng, tier):
-    cases = _gen_hex(rng, tier) + _gen_net(rng, tier)
+    cases = _gen_hex(rng, tier) + _gen_net(rng, tier) + _gen_large(rng, tier)
     # exhaustive small grids
     small = 3 if tier == "quick" else 4
     rsmall = 4 if tier == "quick" else 5
